@@ -13,6 +13,7 @@ m("c01_sse42_loop_guard", ["C01","C12"], "src/simd/sse42.rs", "while bytes.as_re
 m("c01_avx2_value_loop_guard", ["C01","C12"], "src/simd/avx2.rs", "while bytes.as_ref().len() >= 32 {\n        let advance = match_header_value_char_32_avx", "while bytes.as_ref().len() >= 20 {\n        let advance = match_header_value_char_32_avx")
 m("c01_shrink_count_plus1", ["C01","C17"], L, "let headers = unsafe { headers.get_unchecked_mut(..self.num_headers) };", "let headers = unsafe { headers.get_unchecked_mut(..self.num_headers + 1) };")
 m("c01_chunk_digit_limit", ["C09","C01"], L, "b'0' ..= b'9' if in_chunk_size => {\n                if count > 15 {", "b'0' ..= b'9' if in_chunk_size => {\n                if count > 16 {")
+m("c01_infinite_loop_formfeed", ["C01"], L, "            Some(b'\\n') => {\n                // SAFETY: peeked and found `\\n`, so it's safe to bump 1 pos\n                unsafe {\n                    bytes.bump();\n                }\n            }", "            Some(b'\\n') => {\n                // SAFETY: peeked and found `\\n`, so it's safe to bump 1 pos\n                unsafe {\n                    bytes.bump();\n                }\n            }\n            Some(0x0c) => {}")
 # C02
 m("c02_avx2_value_accepts_del", ["C02","C12","C13","C05","C08"], "src/simd/avx2.rs", "let bit = _mm256_andnot_si256(del, _mm256_or_si256(low, tab));", "let bit = _mm256_or_si256(low, tab); let _ = del;")
 m("c02_version_partial_guess", ["C02","C11","C06"], L, "    expect!(bytes.next() == b'.' => Err(Error::Version));\n    Ok(Status::Partial)", "    expect!(bytes.next() == b'.' => Err(Error::Version));\n    if bytes.peek().is_none() { return Ok(Status::Complete(1)); }\n    Ok(Status::Partial)")
